@@ -133,6 +133,13 @@ THEOREMS = THEOREMS + [
     dict(name="Snow.GenTie.S1D.solid_q_e", clause="1D solidification loop: generated `q_e = -N_w*dHe` = the model's qEvap inside the window", strength="tie"),
     dict(name="Snow.GenTie.S2D.q_e", clause="2D cooling loop: generated `q_e = -N_w*dHe` with N_w := the model's vapour flux at the top node (S2D fluxAt) = S2D.qEvap inside the window", strength="tie"),
     dict(name="Snow.GenTie.S2D.solid_q_e", clause="2D solidification loop: generated `q_e = -N_w*dHe` with N_w := the model's vapour flux at the top node = S2D.qEvap inside the window", strength="tie"),
+    # the WHOLE statement `if (window condition): N_w = vapour_flux(…); q_e = -N_w*dHe  else: q_e = 0` of each loop,
+    # extracted as one conditional expression (window test, helper-call arguments, flux formula and the zero branch)
+    dict(name="Snow.GenTie.S1D.cool_q_e_if", clause="1D cooling loop: generated `if dt*i in window: q_e = -vapour_flux(kappa, m_water, k_B, p_vac, p_liq(T_top), T_top, T_top)*dHe else: q_e = 0` = the model's qEvap (VISF)", strength="tie"),
+    dict(name="Snow.GenTie.S1D.solid_q_e_if", clause="1D solidification loop: generated `if t_nuc+dt*i in window: q_e = -vapour_flux(…, p_ice(T_top), …)*dHe else: q_e = 0` = the model's qEvap (VISF)", strength="tie"),
+    dict(name="Snow.GenTie.S1D.q_e_call_sites", clause="1D cooling stage: the model's step function passes exactly this qEvap (liquid curve, time dt*i, top node) to the top boundary node", strength="tie"),
+    dict(name="Snow.GenTie.S2D.cool_q_e_if", clause="2D cooling loop: generated whole `if window … else: q_e = 0` statement (per radial node) = S2D.qEvap (VISF, code-as-is flags)", strength="tie"),
+    dict(name="Snow.GenTie.S2D.solid_q_e_if", clause="2D solidification loop: generated whole `if window … else: q_e = 0` statement = S2D.qEvap (VISF)", strength="tie"),
 ]
 extra_lean_targets = list(globals().get("extra_lean_targets", [])) + [
     "SnowProofs.Props.GenTie.Evap", gentie.module("1D"), gentie.module("2D")]
@@ -171,6 +178,20 @@ def _run_pair(case):
             cfg["VISF"]["kappa"] = case["kappa"]
         if case.get("p_vac") is not None:
             cfg["VISF"]["p_vac"] = case["p_vac"]
+        if case.get("omit_visf"):
+            del cfg["VISF"]          # the object relies on the packaged defaults for every VISF entry
+        if case.get("other") and conf == "VISF":
+            # ANOTHER object built earlier in the same process from a file overriding the VISF entries: it must not
+            # change what a later object gets as defaults
+            o = case["other"]
+            fo = tempfile.NamedTemporaryFile("w", suffix=".yaml", delete=False)
+            yaml.safe_dump({"snowing_parameters": {"dimensionality": "spatial_1D", "configuration": "VISF"},
+                            "VISF": dict(o)}, fo)
+            fo.close()
+            try:
+                Snowing(k={"int": 0, "ext": 0, "s0": 50, "s_sigma_rel": 0}, configPath=fo.name)
+            finally:
+                os.unlink(fo.name)
         f = tempfile.NamedTemporaryFile("w", suffix=".yaml", delete=False)
         yaml.safe_dump(cfg, f)
         f.close()
@@ -373,6 +394,18 @@ def _evap(drv, fn, T):
 def _window(case):
     """the CONFIGURED vacuum window in seconds (what the YAML file says, not what `const` returned)"""
     return float(case["t_start"]) * 3600, (float(case["t_start"]) + float(case["t_dur"])) * 3600
+
+
+_DFLT = {}
+
+
+def _default_visf():
+    """the VISF section of the packaged default file, read by the harness itself (fresh parse)"""
+    p = core.REPO / "src" / "ethz_snow" / "config" / "snowConfig_default.yaml"
+    if str(p) not in _DFLT:
+        with open(p) as f:
+            _DFLT[str(p)] = yaml.load(f, Loader=yaml.FullLoader)["VISF"]
+    return _DFLT[str(p)]
 
 
 def _stride_one(impl):
@@ -599,6 +632,14 @@ def predicates(case, impl):
             if c[key] != want:
                 out.append(Failure(clause="window_as_configured", key=f"window_as_configured|calculateDerived|{key}",
                                    detail=f"configured {key} = {want!r} but the run uses {c[key]!r}"))
+        dflt = _default_visf()
+        for key, ckey in (("kappa", "kappa"), ("p_vac", "p_vac"), ("Dh_evaporation", "Dh_evaporation"),
+                          ("m_water", "m_water")):
+            want = float(case[key]) if case.get(key) is not None else float(dflt[key])
+            if c[ckey] != want:
+                src_ = "the configuration file" if case.get(key) is not None else "the packaged default"
+                out.append(Failure(clause="window_as_configured", key=f"window_as_configured|calculateDerived|{key}",
+                                   detail=f"{key}: {src_} says {want!r} but the run uses {c[ckey]!r}"))
         if impl.get("shelf_calls"):
             out.append(Failure(clause="no_evap_outside_window", key="no_evap_outside_window|_run_1D|shelf",
                                detail=f"a shelf run called the evaporation helpers {impl['shelf_calls']} times"))
@@ -763,6 +804,26 @@ def _history_case(rng, k):
     return b
 
 
+def _cross_object_case(rng, k):
+    """object A (file overriding every VISF entry) is built first; the observed object B comes from a file that omits
+    kappa / p_vac (k even) or the whole VISF section (k odd: default window 0.75 h + 0.1 h) and must get the defaults"""
+    d = _default_visf()
+    other = dict(p_vac=rng.choice([20, 400]), kappa=rng.choice([0.05, 0.002]), t_vac_start=rng.uniform(0.001, 0.01),
+                 t_vac_duration=rng.uniform(0.2, 0.4), m_water=2.5e-26, Dh_evaporation=2.0e6)
+    if k % 2 == 0:
+        b = _window_case(rng, rng.choice(["early", "straddle"]))
+        b.pop("kappa", None)
+    else:
+        b = _window_case(rng, "solid")
+        b.pop("kappa", None)
+        b["height"], b["t_tot"], b["rate"], b["s0"] = 0.04, 6000.0, 0.2, 500
+        b["omit_visf"] = True
+        b["t_start"], b["t_dur"] = float(d["t_vac_start"]), float(d["t_vac_duration"])
+    b["other"] = other
+    b["cls"] = "cross-object:" + ("omit-visf" if b.get("omit_visf") else "omit-kappa")
+    return b
+
+
 def cases(rng, tier):
     n_utils, n_win = (24, 10) if tier == "quick" else (400, 120)
     yield dict(kind="grid")
@@ -774,6 +835,8 @@ def cases(rng, tier):
         yield _window_case(rng, must[i] if i < len(must) else None)
     for k in range(2 if tier == "quick" else 16):
         yield _history_case(rng, k + (core.env_seed() % 4))
+    for k in range(2 if tier == "quick" else 12):
+        yield _cross_object_case(rng, k)
 
 
 def widen(rng, tier):
